@@ -6,11 +6,12 @@ ROOT = os.path.dirname(os.path.dirname(os.path.abspath(__file__)))
 sys.path.insert(0, ROOT)
 props = [json.loads(l) for l in open(os.path.join(ROOT, 'properties.jsonl'))]
 checks, na = [], []
+ready = set(open(os.path.join(ROOT, 'tools', 'ready.txt')).read().split())
 for p in props:
     pid = p['id']
     path = os.path.join(ROOT, 'checks', pid.lower() + '.py')
     entry = None
-    if os.path.exists(path):
+    if os.path.exists(path) and pid in ready:
         src = open(path).read()
         ns = {}
         # MANIFEST block is a plain dict literal assigned at module level
